@@ -336,7 +336,7 @@ func (t FunctionBlock) serializeTo(writer io.StringWriter) {
 // writing chunks as Unicode string
 // by calling the provided `write` callback.
 func serializeTo(nodes []Token, writer io.StringWriter) {
-	var previousType string
+	var previousType, beforePreviousType string
 	var previousIsU bool
 	for _, node := range nodes {
 		serializationType := node.Kind().String()
@@ -344,6 +344,9 @@ func serializeTo(nodes []Token, writer io.StringWriter) {
 			serializationType = literal.Value
 		}
 		if badPairs[[2]string{previousType, serializationType}] {
+			writer.WriteString("/**/")
+		} else if ident, isIdent := node.(Ident); isIdent && previousType == "!" && beforePreviousType == "<" && strings.HasPrefix(ident.Value, "--") {
+			// "<!" followed by "--x" would be read back as the CDO token
 			writer.WriteString("/**/")
 		} else if previousIsU && serializationType == "+" {
 			// "u+<hex or ?>" would be read back as an unicode-range token
@@ -356,6 +359,7 @@ func serializeTo(nodes []Token, writer io.StringWriter) {
 			}
 		}
 		node.serializeTo(writer)
+		beforePreviousType = previousType
 		previousType = serializationType
 		ident, isIdent := node.(Ident)
 		previousIsU = isIdent && (ident.Value == "u" || ident.Value == "U")
